@@ -35,11 +35,11 @@ MANIFEST = dict(
     design="6/C02")
 
 SKIP = {"fss_2d", "fss_2d_binary"}          # documented exception
-K = "k"
+K = "case"
 
 
 def case_1d(rng, e, n, with_weights):
-    sizes = {K: n, "a": 1, "b": 1, "c": 1}
+    sizes = dict({d: 1 for d in R.UNIVERSE}, **{K: n})
     return R.gen_case(rng, e, data_dims=[K], obs_dims=([] if e.no_obs else [K]), weights_dims=[K], sizes=sizes,
                       with_weights=with_weights)
 
